@@ -13,6 +13,10 @@ from pyvc.interp import Native, PyRaise, ObjVal, ClassVal
 DF = "pandapower.diagnostic.diagnostic_functions"
 
 
+class UnexpectedRunError(Exception):
+    """an error of run(net) that is not one of expected_exceptions"""
+
+
 def default_function_classes():
     """class names listed in diagnostic_functions.default_diagnostic_functions (read from the source)"""
     m = source.load_module(DF)
@@ -102,6 +106,10 @@ def run(vc):
                 if it.truth(SV(z3.Bool(f"run#{k}_does_not_converge")), tag=f"run#{k} raises"):
                     exc_cls = expected[0]
                     raise PyRaise(it.instantiate(exc_cls, ["power flow did not converge"], {}))
+                if it.truth(SV(z3.Bool(f"run#{k}_fails_otherwise")), tag=f"run#{k} raises another error"):
+                    # any other error of the power flow (e.g. UserWarning "no reference bus"): diagnose_network swallows it
+                    # (diag_errors), so the caller gets the net back after a normal return
+                    raise PyRaise(UnexpectedRunError("the power flow failed with an error that is not a convergence error"))
                 return None
             defaults = me.get("default_argument_values")
             kw = dict(defaults.to_dict()) if isinstance(defaults, PDict) else {}
@@ -109,7 +117,7 @@ def run(vc):
             out = p.call(f"{DF}:{name}.diagnostic", obj, net, **kw)
             viol = frame.frame_violations(net)
             if out.raised:
-                ok_exc = p.it.exc_matches(out.exc, expected)
+                ok_exc = p.it.exc_matches(out.exc, expected) or isinstance(out.exc, UnexpectedRunError)
                 if not ok_exc:
                     # exit by an unexpected exception: outside the statement's quantifier (reported as information only)
                     p.vc.extra.setdefault("unexpected_exception_exits", []).append(f"{name}: {out.exc!r}")
